@@ -30,7 +30,7 @@ DECIDING = ['bp.util:BundleContainer.create_report', 'bp.agent:Agent._finish_bun
 REQUIRED_OBS = ['combinations', 'reports_expected', 'reports_checked', 'no_report_expected', 'forwards_sent_as_fragments']
 
 NODE = 'dtn://me/'
-OUTCOMES = ['deliver', 'deliver-admin', 'forward', 'forward-frag', 'delete', 'no-route', 'security', 'duplicate', 'forward-fail']
+OUTCOMES = ['deliver', 'deliver-admin', 'forward', 'forward-frag', 'delete', 'no-route', 'security', 'duplicate', 'forward-fail', 'forward-frag-fail']
 REQ_BITS = [('received', bpv7.FLAG_REQ_RECEPTION), ('forwarded', bpv7.FLAG_REQ_FORWARDING),
             ('delivered', bpv7.FLAG_REQ_DELIVERY), ('deleted', bpv7.FLAG_REQ_DELETION)]
 OCCURRED = {
@@ -42,11 +42,12 @@ OCCURRED = {
     'security': {'received', 'deleted'},
     'no-route': {'received'},
     'forward-fail': {'received', 'deleted'},   # routed for forwarding, but no transmit route: nothing was forwarded
+    'forward-frag-fail': {'received', 'deleted'},   # the route's MTU cannot even hold the blocks without payload: nothing leaves
     'duplicate': set(),
 }
 DEST = {
     'deliver': 'dtn://me/app', 'deliver-admin': NODE, 'forward': 'dtn://fwd/app', 'forward-frag': 'dtn://frag/app',
-    'delete': 'dtn://del/app', 'no-route': 'dtn://nowhere/app', 'forward-fail': 'dtn://lost/app', 'security': 'dtn://me/app', 'duplicate': 'dtn://me/app',
+    'delete': 'dtn://del/app', 'no-route': 'dtn://nowhere/app', 'forward-fail': 'dtn://lost/app', 'forward-frag-fail': 'dtn://tiny/app', 'security': 'dtn://me/app', 'duplicate': 'dtn://me/app',
 }
 
 
@@ -92,8 +93,12 @@ def build(combo, rng, variant):
         plen = max(plen, 300)
     blocks.append(dict(type=1, num=1, flags=0, crc_type=crc, data=bytes((i * 13 + 5) & 0xFF for i in range(plen)), crc=None))
     src = 'dtn://src/app' if variant == 0 else rng.choice(['dtn://src/app', 'ipn:77.3', 'dtn://src/'])
+    clockless = (combo['mask'] + combo['crc'] + variant) % 5 == 0
+    if clockless:
+        # the subject comes from a source without a clock: creation time 0, its age in a Bundle Age block
+        blocks.insert(0, dict(type=7, num=9, flags=0, crc_type=crc, data=cw.enc(1000), crc=None))
     pri = dict(version=7, flags=flags, crc_type=crc, dest=DEST[combo['outcome']], src=src, report_to=combo['report_to'],
-               create_time=820540000000 + (variant * 17), seqno=variant if variant == 0 else rng.choice([0, 5, 2 ** 32]),
+               create_time=0 if clockless else 820540000000 + (variant * 17), seqno=(variant + 3) if variant == 0 else rng.choice([0, 5, 2 ** 32]),
                lifetime=3600000, frag_offset=None, total_adu_len=None, crc=None)
     return dict(primary=pri, blocks=blocks)
 
@@ -111,8 +116,9 @@ def check_combo(combo, bundle, obs):
     sim = Sim(0, 'eager')
     enc = bpv7.encode(bundle)
     node = bh.BpNode(sim, NODE, rx_routes=[(r'dtn://me/.*', 'deliver'), (r'dtn://fwd/.*', 'forward'), (r'dtn://frag/.*', 'forward'),
-                                           (r'dtn://del/.*', 'delete'), (r'dtn://lost/.*', 'forward')],
+                                           (r'dtn://del/.*', 'delete'), (r'dtn://lost/.*', 'forward'), (r'dtn://tiny/.*', 'forward')],
                      tx_routes=[dict(pattern=r'dtn://frag/.*', mtu=max(120, len(enc) - 150), raw={'r': 'frag'}),
+                                dict(pattern=r'dtn://tiny/.*', mtu=40, raw={'r': 'tiny'}),
                                 dict(pattern=r'(?!dtn://lost/).*', raw={'r': 'any'})])
     problems = []
     detail = dict(received=enc.hex()[:400], combo=combo)
